@@ -5,16 +5,16 @@ import json, sys
 
 CHECKS = {
  "C01": dict(cat="exploration", tech="bounded-exhaustive enumeration of the image-class x lossless-option product on the real encoder/decoder, differential oracle against an independent decoder",
-   text="Every leaf of a finite product (size class x colour-content class x alpha class x Go image type x Quality thresholds x Method 0..6 x Exact x metadata, plus every tiny image over a 5-pixel alphabet) is encoded and decoded by the real code; decoded pixels must equal the source read through color.NRGBAModel, by this package's decoder and by the vendored x/image decoder. Exhaustive within the stated alphabet; the right level because the defect regions are defined by joint class conditions, which the product visits completely.",
+   text="Every leaf of a finite product (size class x colour-content class x alpha class x Go image type x Quality thresholds x Method 0..6 x Exact x metadata, plus every tiny image over a 5-pixel alphabet, plus every number of distinct colours 1..260 on a 20x20 noise layout) is encoded and decoded by the real code; decoded pixels must equal the source read through color.NRGBAModel, by this package's decoder and by the vendored x/image decoder. Exhaustive within the stated alphabet; the right level because the defect regions are defined by joint class conditions, which the product visits completely.",
    note="Trusts: vendored golang.org/x/image vp8l decoder as independent reference; worker count pinned to 1 and pools never reuse (studied by C12/C11); filler pixel values inside a class are fixed functions of position and seed.", ref="3/C01"),
  "C02": dict(cat="exploration", tech="deviation-bounded exhaustive enumeration of EncoderOptions (<=2, thorough <=3 fields off default) x image alphabet on the real encoder; strict container validator + independent decoder, libwebp arbitrating",
-   text="All option sets with at most 2 (thorough 3) fields away from DefaultOptions(), each field over its menu of valid values, on a 12-picture alphabet; every output is checked by a RIFF/VP8/VP8L validator written from the specification and decoded by this package and by the vendored x/image decoder (planes/pixels equal; libwebp arbitrates disagreements). Complete up to the stated interaction bound, which covers every single and pairwise option interaction - the region where container and bitstream invariants were found to break.",
+   text="All option sets with at most 2 (thorough 3) fields away from DefaultOptions(), each field over its menu of valid values, on a 14-picture alphabet, plus an alphabet-size sweep (every number of distinct colours 1..260 lossless, every number of alpha levels 1..256 lossy, x Quality x Method menus); every output is checked by a RIFF/VP8/VP8L validator written from the specification and decoded by this package and by the vendored x/image decoder (planes/pixels equal; libwebp arbitrates disagreements and must itself accept every file Encode reports success for). Complete up to the stated interaction bound, which covers every single and pairwise option interaction - the region where container and bitstream invariants were found to break.",
    note="Trusts riffwalk (own validator), vendored x/image vp8/vp8l, optional libwebp arbiter; 3-way (4-way) interactions and pictures outside the alphabet are not covered.", ref="3/C02"),
  "C05": dict(cat="fault_enumeration", tech="exhaustive single-fault (header region: double-fault) enumeration over seed files, executed in isolated worker processes with allocation and CPU accounting",
    text="Every prefix, every byte position x 9-value boundary alphabet, every recognised size/dimension field x 15-value boundary alphabet, every chunk delete/duplicate/swap/re-tag, all deviation pairs in the header region, and RIFF skeleton strings, for ~55 seed files; each input is pushed through all nine decoding entry points in a supervised child (panic, process death, CPU blow-up, deadlock, TotalAlloc bound, malformed result).",
    note="Inputs declaring more than 2^22 (thorough 2^26) pixels within the documented caps are skipped and counted; faults are bounded to 1 (header: 2) per seed; allocation is TotalAlloc, time is process CPU time.", ref="3/C05"),
  "C07": dict(cat="exploration", tech="full-product enumeration of alpha-pattern x alpha-option space on the real lossy encoder/decoder with a reference ALPH decoder",
-   text="Full product of alpha pattern class x size x RGB class x AlphaCompression x AlphaFiltering x AlphaQuality thresholds x Method x Exact; decoded alpha must equal source alpha at AlphaQuality 100 (and by the reference ALPH decoder), and obey the documented level count / kept extremes below 100.",
+   text="Full product of alpha pattern class x size x RGB class x AlphaCompression x AlphaFiltering x AlphaQuality thresholds x Method x Exact, plus every number of distinct alpha levels 1..256 and curved alpha surfaces (glow, saddle) x compression x filter x Method; decoded alpha must equal source alpha at AlphaQuality 100 (and by the reference ALPH decoder), and obey the documented level count / kept extremes below 100.",
    note="Trusts the reference ALPH decoder (written from the container specification over vendored x/image vp8l); worker count pinned, pools fresh.", ref="3/C07"),
  "C15": dict(cat="exploration", tech="full-product enumeration of metadata blob alphabet^3 x output kinds; byte-exact read-back through three parsers",
    text="Full product of a 10-blob alphabet (absent, nil, empty, 1-3 bytes, chunk-look-alike, 4095/4096/65537 bytes) for each of ICC/EXIF/XMP x 6 output kinds (lossy, lossless, +alpha, 1- and 2-frame AnimEncoder); blobs read back byte-exact by riffwalk, mux.GetChunk and animation.DecodeBytes; flags = presence; bitstream, ALPH payload and pixels identical to the no-metadata output.",
@@ -32,23 +32,23 @@ CHECKS = {
 
 _MORE = {
  "C08": dict(cat="model_checking", tech="explicit-state breadth-first search over the real AnimEncoder (histories replayed on fresh objects, reflection state hash), reference player as oracle",
-   text="Every AddFrame history up to depth 3 (thorough 4; a 7-picture core alphabet one level deeper) over a 22-operation alphabet of (picture, duration) on an 8x8 canvas x 8 Kmin/Kmax/loop configurations, plus a third search on a 24x16 canvas over 10 many-colour pictures (more colours than a palette, incompressible content, changed regions followed by unchanged pixels, translucent regions on opaque and on transparent ground). After every history the encoder is closed and the bytes are played back by this package's reader+player and by an independent stack (own RIFF parser, vendored decoders, reference compositor); both must show the run-length-merged inputs with the same display times, total duration, loop count and canvas size.",
+   text="Every AddFrame history up to depth 3 (thorough 4; a 10-picture core alphabet one level deeper) over a 25-operation alphabet of (picture, duration) on an 8x8 canvas x 8 Kmin/Kmax/loop configurations, plus a third search on a 24x16 canvas over 10 many-colour pictures (more colours than a palette, incompressible content, changed regions followed by unchanged pixels, translucent regions on opaque and on transparent ground). After every history the encoder is closed and the bytes are played back by this package's reader+player and by an independent stack (own RIFF parser, vendored decoders, reference compositor); both must show the run-length-merged inputs with the same display times, total duration, loop count and canvas size.",
    note="Bounded depth and picture alphabet; canvases 8x8 and 24x16; model = plain list of (canvas, duration). States are histories merged by private-state hash; every transition is executed on the implementation.", ref="3/C08"),
  "C09": dict(cat="model_checking", tech="explicit-state breadth-first search over the real AnimDecoder with state merging by reflection hash; exhaustive operand sweep of the blend function",
    text="Transition = NextFrame on one more frame from a 252-frame alphabet (rectangle inside/partly outside/outside/larger than the 4x4 canvas x blend x dispose x HasAlpha x 7 fills); depth 3 quick, up to 6 thorough, states merged by a hash of the decoder's complete private state plus the model. Each step is checked against a compositor written from the specification (no key-frame shortcut); every history also checks Reset-replay and that earlier snapshots are untouched. alphaBlendNRGBA is swept over all alpha pairs x channel grid (thorough: all 2^32 operand tuples).",
    note="Blend results accept libwebp's documented integer formula or the specification's real formula within rounding; merging skips the frame list pointer and canonicalises pos (argument in c09.go).", ref="3/C09"),
  "C14": dict(cat="model_checking", tech="explicit-state breadth-first search over the real Muxer (73-call alphabet, depth 4/5) with a plain-struct model, three parsers as oracle",
-   text="Every Muxer call sequence up to depth 4 (thorough 5) over AddFrame (6 real bitstreams incl. ALPH-prefixed with both alpha parities x 5 option sets), SetFrameDisposeMode/SetFrameDuration at valid and out-of-range indices, metadata setters/AddChunk x {nil, empty, odd, even}, loop count, background, canvas size; states merged by private-state hash. After every history Assemble is either an error or a structurally valid file that riffwalk, mux.Demuxer and container.Parser all read back as the model.",
+   text="Every Muxer call sequence up to depth 4 (thorough 5) over AddFrame (6 real bitstreams incl. ALPH-prefixed with both alpha parities x 5 option sets), SetFrameDisposeMode/SetFrameDuration at valid and out-of-range indices, metadata setters/AddChunk x {nil, empty, odd, even}, loop count, background, canvas size; states merged by private-state hash; plus 22 long histories of 1..10001 AddFrame calls around the count limits visible in the code (1000, 10000). After every history Assemble is either an error or a structurally valid file that riffwalk, mux.Demuxer and container.Parser all read back as the model.",
    note="One open known finding (explicit canvas different from a still image, pinned by the repository's own test); frames are real bitstreams (junk is outside the property).", ref="3/C14"),
  "C16": dict(cat="exploration", tech="exhaustive enumeration of a container-layout alphabet (hand-assembled files) plus package outputs; cross-view agreement oracle",
    text="Every hand-assembled container over {VP8, VP8L, VP8L+alpha} x {simple, VP8X} x ALPH {absent, empty, two parities} x unknown chunk position x metadata position x feature flags {exact, each bit over-/under-stated}, plus encoder, animation-encoder and muxer outputs: the agreements the property states between Decode, DecodeConfig, GetFeatures, image.Decode(Config), the demuxer, the animation reader and a neutral parser.",
    note="Layout alphabet is finite and small (280 files); pictures inside are fixed.", ref="3/C16"),
  "C18": dict(cat="model_checking", tech="explicit-state breadth-first search over the real AnimEncoder in lossy/mixed modes; alpha-channel oracle through two players",
-   text="C08's search with Lossless x AllowMixed x Quality x key-frame configurations (8) over pictures with binary, graded and translucent alpha, depth 3 (thorough 4; core alphabet one deeper): the alpha channel of every played-back canvas, by this package's player and by the reference stack, equals the source alpha exactly.",
+   text="C08's search with Lossless x AllowMixed x Quality x key-frame configurations (8) over pictures with binary, graded, translucent (on opaque and on transparent ground) and curved-surface alpha on an 8x8 and a 24x16 canvas, depth 3 (thorough 4; core alphabet one deeper): the alpha channel of every played-back canvas, by this package's player and by the reference stack, equals the source alpha exactly.",
    note="Colour is not compared in lossy modes; bounded depth/alphabet as C08.", ref="3/C18"),
 
  "C10": dict(cat="model_checking", tech="stateless model checking of the implementation under a controlled scheduler (delay-/preemption-bounded DFS over all schedules), plus a separate free-running race-detector pass",
-   text="The instrumenter replaces sync, sync/atomic, go statements, channels and sync.Pool in the current tree by shims that give a cooperative scheduler every synchronisation operation (and the entry of the pipeline's context read/publish functions) as a scheduling point. For 14 scenarios on the real code (row-pipelined lossy encoder for 1/2/3-macroblock-wide pictures, alpha, lossless encode/decode fork-join sections, parallel frame decoding over channels, concurrent public calls with and without pool sharing incl. calls competing for the same pooled encoder/decoder types, two threads on one image) every schedule with at most 2 non-default scheduling decisions (thorough: preemption bound 2 with free switches at blocking points, or delay bound 3) is executed; bytes/pixels must equal the non-preempted schedule (concurrent calls: each result equals what the same call returns when run alone), with no deadlock, lost wake-up, livelock or panic.",
+   text="The instrumenter replaces sync, sync/atomic, go statements, channels and sync.Pool in the current tree by shims that give a cooperative scheduler every synchronisation operation (and the entry of the pipeline's context read/publish functions) as a scheduling point. For 15 scenarios on the real code (row-pipelined lossy encoder for 1/2/3-macroblock-wide pictures, alpha, lossless encode/decode fork-join sections, parallel frame decoding over channels, concurrent public calls with and without pool sharing incl. calls competing for the same pooled encoder/decoder types, two threads on one image) every schedule with at most 2 non-default scheduling decisions (thorough: preemption bound 2 with free switches at blocking points, or delay bound 3) is executed; bytes/pixels must equal the non-preempted schedule (concurrent calls: each result equals what the same call returns when run alone), with no deadlock, lost wake-up, livelock or panic.",
    note="Sequential consistency at scheduling points; plain data races are only sampled by the free-running -race pass (GOMAXPROCS 4 and 16), which is labelled sampling in the evidence. Worker vector fixed per scenario. A completed sync.Once is not a scheduling point.", ref="3/C10"),
  "C11": dict(cat="model_checking", tech="exhaustive history enumeration (all ordered pairs/triples of API calls) x explorable sync.Pool (every assignment of pooled objects to Get calls with <=1 (thorough 2) reuse events + all-reuse), fresh-process results as oracle",
    text="Every ordered pair (thorough: triples over a 16-call core) of a 40-call alphabet chosen to collide (equal/greater/smaller macroblock counts, options that must be reset, methods, alpha, dithering, source types, both codecs, decodes of encoder-made files and of generator-made streams whose headers carry fields no encoder writes, decodes that fail part-way, animation); inside each history every Pool.Get is a choice point (which pooled object, or none). Each result must equal the same call's result as the first call of a fresh process (computed in child processes) and earlier results must stay unchanged.",
@@ -59,7 +59,7 @@ _MORE = {
    note="GOMAXPROCS above 16, and pictures/options outside the case list, are not covered; schedule and history dependence are C10's and C11's subjects.", ref="3/C12"),
 
  "C06": dict(cat="exploration", tech="deviation-bounded exhaustive enumeration of lossy options x pictures x {serial, parallel} on the real encoder with an overlay hook exposing its reconstruction; independent decoder without loop filter as oracle",
-   text="10 pictures x lossy EncoderOptions with at most 2 (thorough 3) fields away from the defaults (16 fields) x worker count {1, 3 under the deterministic default schedule}, plus every ordered pair of Methods on a recycled encoder: the reconstruction planes the encoder holds when EncodeFrame returns (captured by an overlay wrapper generated at check time) must equal bit-exactly what the vendored decoder reconstructs before in-loop deblocking, and webp.Decode's planes when the filter level is 0; decoded size equals source size.",
+   text="10 pictures x lossy EncoderOptions with at most 2 (thorough 3) fields away from the defaults (16 fields) x worker count {1, 3 under the deterministic default schedule}, plus every ordered pair of Methods on a recycled encoder, large pictures with more than one token page x Partitions, and pictures of 510+ macroblocks with skewed segment populations: the reconstruction planes the encoder holds when EncodeFrame returns (captured by an overlay wrapper generated at check time) must equal bit-exactly what the vendored decoder reconstructs before in-loop deblocking, and webp.Decode's planes when the filter level is 0; decoded size equals source size.",
    note="Reads VP8Encoder.yPlane/uPlane/vPlane through a generated accessor (skipped and reported, never an alarm, if those fields disappear); 3-way option interactions only in thorough.", ref="3/C06"),
 
  "C13": dict(cat="exploration", tech="multi-build differential: the same pipeline and kernel-level case list executed by three builds of the current tree (AVX2, SSE2-only, portable Go under js/wasm) plus an exhaustive-over-list GOOS/GOARCH compilation matrix",
@@ -71,7 +71,7 @@ _MORE = {
    note="A stream both references reject counts as a generator fault, one on which they disagree is dropped and counted (0 and 0 on the pinned tree); pictures are at most 33 px wide; deviations beyond the bound are not covered.", ref="3/C03"),
 
  "C04": dict(cat="exploration", tech="exhaustive enumeration of syntax trees of a VP8 key-frame generator (own boolean entropy encoder) and of ALPH payload shapes, decoded by the real decoder and by independent references",
-   text="A syntax-directed VP8 key-frame writer (RFC 6386 boolean encoder, frame header, segment / filter / quantiser syntax, mode trees with the format's probability tables, token trees with contexts, 1-8 partitions) is driven by the explorer over 8 picture sizes with at most 2 deviations (3 on a 3x2-macroblock picture; thorough 3/4) from menus covering quantiser indices and all five deltas, four segment configurations, filter level/type/sharpness/deltas, every 16x16, 4x4 and chroma mode, eleven coefficient programs x magnitudes up to 2114, skip-flag usage, probability updates. Y/Cb/Cr from lossy.DecodeFrame and webp.Decode must equal the vendored decoder's, libwebp arbitrating. ALPH: 8.7 k payloads (raw with each filter / pre-processing / reserved bits / trailing bytes; VP8L payloads from the lossless generator) checked against a reference ALPH decoder and a reference fancy upsampler (validated against libwebp on every case).",
+   text="A syntax-directed VP8 key-frame writer (RFC 6386 boolean encoder, frame header, segment / filter / quantiser syntax, mode trees with the format's probability tables, token trees with contexts, 1-8 partitions) is driven by the explorer over 8 picture sizes with at most 2 deviations (3 on a 3x2-macroblock picture; thorough 3/4) from menus covering quantiser indices and all five deltas, four segment configurations, filter level/type/sharpness/deltas, every 16x16, 4x4 and chroma mode, eleven coefficient programs x magnitudes up to 2114, both spellings of trailing zeros (EOB / explicit DCT_0 tokens), skip-flag usage, probability updates. Y/Cb/Cr from lossy.DecodeFrame and webp.Decode must equal the vendored decoder's, libwebp arbitrating. ALPH: 8.7 k payloads (raw with each filter / pre-processing / reserved bits / trailing bytes; VP8L payloads from the lossless generator) checked against a reference ALPH decoder and a reference fancy upsampler (validated against libwebp on every case).",
    note="Frames the references reject or disagree on are dropped and counted; coefficient levels are limited so that level x quantiser fits 16 bits; pictures have at most 3x3 macroblocks.", ref="3/C04"),
 }
 CHECKS.update(_MORE)
